@@ -65,6 +65,10 @@ def elem_bbox(e):
 F32EDGE = geom.Affine(0.5, 2.0 ** 23 - 2, 0.5, 2.0 ** 23 - 2, name="f32edge")      # model vertices are even, box corners any integers
 
 
+# a very fine dyadic grid: every orientation determinant is exact but below 1e-9 in magnitude (an absolute tolerance would call it zero)
+TINY = geom.Affine(2.0 ** -20, 0.0, 2.0 ** -20, 0.0, name="tiny")
+
+
 def replay_family(chk: Check, fam, data, tier):
     boxes = data["boxes"]
     cases = data["cases"]
@@ -100,8 +104,8 @@ def replay_family(chk: Check, fam, data, tier):
                     "expect": int(E[1 if n > 1 else 0, len(boxes) // 2])})
         inds = np.array([chk.rng.randrange(n) for _ in range(max(1, n // 2))] + list(range(n - 1, -1, -3)))
         special = any(geom.has_special(e) for e in elems)
-        for aff in geom.IMAGES + [F32EDGE]:
-            for subtype in (geom.SUBTYPES if aff is not F32EDGE else ["float32"]):
+        for aff in geom.IMAGES + [F32EDGE, TINY]:
+            for subtype in (["float32"] if aff is F32EDGE else ["float64"] if aff is TINY else geom.SUBTYPES):
                 if np.dtype(subtype).kind == "i" and (special or not aff.integral()):
                     els = [e for e in elems if not geom.has_special(e)] if aff.integral() else None
                     if els is None:
